@@ -534,7 +534,7 @@ func main() {
 		for n := range drivers {
 			ns = append(ns, n)
 		}
-		ns = append(ns, "VT.validate", "VT.main")
+		ns = append(ns, "VT.validate", "VT.main", "VT.aggregator")
 		sort.Strings(ns)
 		fmt.Println(strings.Join(ns, "\n"))
 		return
@@ -547,9 +547,14 @@ func main() {
 	sc := bufio.NewScanner(os.Stdin)
 	idx := 0
 	var vtPairs [][2]string
+	aggregator := false
 	for sc.Scan() {
 		w := strings.Fields(sc.Text())
 		if len(w) != 2 {
+			continue
+		}
+		if w[0] == "VT.aggregator" {
+			aggregator = true
 			continue
 		}
 		if strings.HasPrefix(w[0], "VT.") || strings.HasPrefix(w[1], "VT.") {
@@ -561,6 +566,14 @@ func main() {
 	}
 	if len(vtPairs) > 0 {
 		runVT(idx, iters)
+		idx += 2
+	}
+	if aggregator {
+		reps := iters * 10
+		if reps > 4000 {
+			reps = 4000
+		}
+		runAggregator(idx, reps)
 	}
 	fmt.Fprintln(os.Stderr, "=== DONE")
 }
